@@ -1,5 +1,7 @@
 """Packed types, variables and constants of an elaborated design."""
 
+import collections
+
 
 class VecT:
     """logic [left:right]; `scalar` when declared without a range."""
@@ -101,25 +103,7 @@ class Const:
         return 'Const(%d:%r)' % (self.value, self.ptype)
 
 
-class Port:
-    __slots__ = ('name', 'direction', 'width', 'dims', 'type_name')
-
-    def __init__(self, name, direction, width, dims, type_name):
-        self.name = name
-        self.direction = direction
-        self.width = width
-        self.dims = dims
-        self.type_name = type_name
-
-    def __iter__(self):
-        return iter((self.name, self.direction, self.width, self.dims, self.type_name))
-
-    def __repr__(self):
-        return 'Port(%r, %r, %d, %r, %r)' % (self.name, self.direction, self.width,
-                                             self.dims, self.type_name)
-
-    def __eq__(self, other):
-        return tuple(self) == tuple(other)
-
-    def __hash__(self):
-        return hash(tuple(self))
+Port = collections.namedtuple('Port', 'name direction width dims type_name')
+Port.__doc__ = """A top-level port: name, direction 'input'|'output', width (packed bits
+per element), dims (tuple of unpacked dimensions, () if none), type_name (struct
+typedef name or None)."""
